@@ -17,20 +17,24 @@ try:
         print(wf["error"]); sys.exit(2)
     print(wf["flow"])
     d = wf["dir"]
+    back = int(os.environ.get("MT_BACK", "0"))      # start that many logged steps earlier (e.g. to have db set by StopNow)
     with open(os.path.join(d, "Diag.tla"), "w") as f:
         f.write("""---- MODULE Diag ----
 EXTENDS SchedMT
 R == MT_Runs[%d]
 DInit == LET s == R[%d].st IN
   /\\ pool = AsModelPool(s.pool) /\\ rhl = s.rhl /\\ rhbase = s.rhbase /\\ q = s.q /\\ cmds = s.cmds /\\ jobs = s.jobs
-  /\\ net = s.net /\\ acks = s.acks /\\ stopped = s.stopped /\\ futseen = s.futseen /\\ maxfut = s.maxfut /\\ tohold = s.tohold /\\ holdpt = s.holdpt /\\ stopcmd = (IF s.stop = W.fcp THEN NoPoint ELSE s.stop) /\\ cb = 9
-  /\\ done = OutsOf(s.pool) /\\ ran = {} /\\ db = [pool |-> {}] /\\ fb = [dup |-> 0, crash |-> 0]
+  /\\ net = s.net /\\ acks = s.acks /\\ stopped = s.stopped /\\ futseen = s.futseen /\\ maxfut = s.maxfut
+  /\\ tohold = s.tohold /\\ holdpt = s.holdpt /\\ stopcmd = (IF s.stop = W.fcp THEN NoPoint ELSE s.stop) /\\ cb = 9
+  /\\ done = OutsOf(s.pool) /\\ ran = {} /\\ fb = [dup |-> 0, crash |-> 0]
+  /\\ db = [has |-> FALSE, pool |-> <<>>, tohold |-> {}, holdpt |-> NoPoint, stopcmd |-> NoPoint]
   /\\ tid = %d /\\ l = %d /\\ bad = {}
-DNext == l = %d /\\ Act(R[l + 1]) /\\ l' = l + 1 /\\ UNCHANGED <<tid, bad>>
-         /\\ PrintT(<<"SUCC", pool', rhl', rhbase', futseen', maxfut', tohold', holdpt', stopcmd', q', cmds', jobs', net', acks', stopped'>>)
+DNext == \\/ l < %d /\\ Strict(R[l + 1]) /\\ l' = l + 1 /\\ UNCHANGED <<tid, bad>>
+         \\/ l = %d /\\ Act(R[l + 1]) /\\ l' = l + 1 /\\ UNCHANGED <<tid, bad>>
+            /\\ PrintT(<<"SUCC", pool', rhl', rhbase', futseen', maxfut', tohold', holdpt', stopcmd', q', cmds', jobs', net', acks', stopped'>>)
 DSpec == DInit /\\ [][DNext]_mtvars
 ====
-""" % (run, step - 1, run, step - 1, step - 1))
+""" % (run, step - 1 - back, run, step - 1 - back, step - 1, step - 1))
     with open(os.path.join(d, "Diag.cfg"), "w") as f:
         f.write(open(os.path.join(d, "RunMT.cfg")).read().replace("SPECIFICATION MTSpec", "SPECIFICATION DSpec"))
     res = tlc.run_tlc(os.path.join(d, "Diag.tla"), os.path.join(d, "Diag.cfg"), workers=1, timeout=600, scratch=d, heap="2g")
